@@ -762,7 +762,7 @@ func Ref(t *Term) string {
 	case "var":
 		return "|" + t.Name + "|"
 	}
-	return fmt.Sprintf("t%d", t.ID)
+	return fmt.Sprintf("$t%d", t.ID)
 }
 
 func fpTo(w int) string {
